@@ -184,6 +184,10 @@ RECURSIVE SeqToSet(_)
 SeqToSet(s) == {s[i] : i \in 1..Len(s)}
 Vals(T) == SeqToSet(VS(T))
 
+\* C07: what follows a value in a stream is usually the encoding of another value - the first and the last
+\* boundary value of every leaf type (an encoded time zone, a string, a varint, a date ...) as suffixes
+FollowerSuffixes == ({Encode(L, VS(L)[1]).b : L \in Leaves} \cup {Encode(L, Last(VS(L))).b : L \in Leaves}) \ {<<>>}
+
 \* does the type involve a container whose iteration order is unspecified?
 RECURSIVE HasHash(_)
 HasHash(T) ==
